@@ -191,6 +191,16 @@ def nasty_cases():
     for _ in range(4):
         ops += [["upd", sk, mk(0), beat, False], ["upd", sk, mk(2), beat, False], ["tick", 150], ["check"], ["qlist", sk, True]]
     case(ops)
+    # a mass failure in ONE service with a small per-round budget (once_time_check_size): the round may stop
+    # AFTER the service (the remaining services wait for the next round) but every due instance of the service
+    # itself must be handled - nothing may be dropped from the time-out sets
+    for budget, count in ((2, 7), (4, 10), (1, 3)):
+        cfg = dict(nc.CFG)
+        cfg["n"] = budget
+        ops = [["upd", sk, mk(k), reg, False] for k in range(count)]
+        ops += [["tick", 301], ["check"], ["qall", sk], ["tick", 1], ["check"], ["qall", sk], ["tick", 300], ["check"], ["qall", sk],
+                ["tick", 300], ["check"], ["qall", sk]]
+        out.append({"cfg": cfg, "ops": ops, "dump": "all", "services": [sk]})
     # take-over (repaired): synced instances, one healthy one unhealthy, a gRPC one, and a local control
     case([["upd", sk, mk(0, fc=2), None, False], ["upd", sk, mk(1, fc=2, he=False), None, False], ["upd", sk, mk(2, fg=True, fc=2, cl=11), None, False],
           ["upd", sk, mk(8), reg, False], ["tick", 100], ["range", 0, 1], ["tick", 200], ["check"], ["qall", sk], ["tick", 300], ["check"],
